@@ -460,3 +460,5 @@ def replay(case):
         return None
     pre = f'after the rules {case["after_rules"]} were parsed in this process: ' if case.get('after_rules') else ''
     return f'{pre}rule {case["text"]!r} matches path {case["path"]!r}; {r[1]}'
+
+MANIFEST['text'] += " Hooks installed and removed again, and rule pairs that split each other's tail node, are included."
